@@ -328,6 +328,10 @@ pub fn replay_doc(prep: &Prepared, gen: Option<(u64, u64, &str)>, op: &StoreOp, 
     doc
 }
 
+fn rng_len(job: u64, lo: u64, hi: u64) -> usize {
+    (lo + crate::prng::splitmix64(job ^ 0x1e4) % (hi - lo + 1)) as usize
+}
+
 fn job_workload(master: u64, job: u64, tier: Tier) -> Vec<u8> {
     if tier == Tier::Thorough && job >= 1500 {
         if let Some(f) = workload::sample_file((job - 1500) as usize) {
@@ -335,6 +339,14 @@ fn job_workload(master: u64, job: u64, tier: Tier) -> Vec<u8> {
         }
     }
     let mut rng = Rng::new(derive(master ^ 0xb10b, job));
+    if job % 16 == 7 {
+        // expanded form hundreds of times larger than the file
+        return workload::gen_high_ratio_file(&mut rng, rng_len(job, 60_000, 900_000));
+    }
+    if job % 16 == 9 {
+        // chunk boundary of the expanded form on a 128 KiB (zstd block) boundary
+        return workload::gen_block_aligned_file(&mut rng, 1 + (job / 16 % 2) as usize);
+    }
     if job % 16 == 5 {
         // a large incompressible file (stored media, encrypted data): the zstd frame consists of
         // raw blocks and is larger than the expanded form minus nothing
@@ -407,6 +419,7 @@ impl Engine for BlobEngine {
             "probe.torn_last_byte_missing",
             "probe.damage_undetected_by_zstd",
             "probe.foreign_container",
+            "probe.blob_with_several_zstd_blocks",
         ]
     }
 
@@ -499,6 +512,19 @@ impl Engine for BlobEngine {
             }
             v
         };
+        // every zstd block boundary of the blob, +-1 (a torn write that happens to end with a complete block)
+        let block_ends = workload::zstd_block_ends(&prep.blob);
+        for &b in block_ends.iter() {
+            for d in [-1i64, 0, 1] {
+                let c = b as i64 + d;
+                if c >= 0 && (c as usize) < blen {
+                    cuts.push(c as usize);
+                }
+            }
+        }
+        if block_ends.len() > 1 {
+            res.bump("probe.blob_with_several_zstd_blocks");
+        }
         cuts.sort();
         cuts.dedup();
         if full {
